@@ -34,7 +34,7 @@ Record case_C18 := mkcase {
   c_enc : enc_in;
   c_patch : list (N * N);                          (* payload[pos] = byte, applied in order *)
   c_cut : option N;                                (* payload.truncate(k) *)
-  c_orc : list (N * bytes * bytes)                 (* (0 f32 | 1 f64 | 2 utf8-lossy | 3 windows-1252, input, output) *)
+  c_orc : list (N * bytes * bytes)                 (* (0 f32 | 1 f64, [bits], Display text) *)
 }.
 
 (* ---- observation of byte strings: single bytes as leaves, runs of >= 2 equal bytes as T [L b; L n] *)
@@ -57,8 +57,7 @@ Definition o_bytes (l : bytes) : otree :=
   else T (map (fun bn : N * N => if snd bn =? 1 then L (fst bn) else T [L (fst bn); L (snd bn)]) r).
 Definition o_arg (a : arg) : otree := T [L (a_ti a); ob (a_be a); o_bytes (a_raw a)].
 
-(* ---- the external text functions, answered from the case's table; ASCII-only strings are decoded by the
-   identity (an assumption about both decoders that the comparison then checks on every such case) *)
+(* ---- the external float Display is answered from the case's table *)
 Fixpoint bytes_eqb (a b : bytes) : bool :=
   match a, b with
   | [], [] => true
@@ -70,11 +69,11 @@ Fixpoint lookup (k : N) (key : bytes) (tbl : list (N * bytes * bytes)) : bytes :
   | [] => []
   | (k', key', v) :: r => if (k =? k') && bytes_eqb key key' then v else lookup k key r
   end.
-Definition all_ascii (l : bytes) : bool := forallb (fun b => b <? 128) l.
 Definition x_fdisp32 tbl (bits : N) : bytes := lookup 0 [bits] tbl.
 Definition x_fdisp64 tbl (bits : N) : bytes := lookup 1 [bits] tbl.
-Definition x_lossy tbl (s : bytes) : bytes := if all_ascii s then s else lookup 2 s tbl.
-Definition x_w1252 tbl (s : bytes) : bytes := if all_ascii s then s else lookup 3 s tbl.
+(* the two charset decoders are computed by their executable models (Dlt/Text.v) *)
+Definition x_lossy (tbl : list (N * bytes * bytes)) (s : bytes) : bytes := utf8_lossy_model s.
+Definition x_w1252 (tbl : list (N * bytes * bytes)) (s : bytes) : bytes := w1252_model s.
 
 (* ---- mutations *)
 Fixpoint set_at (l : bytes) (i : nat) (b : N) : bytes :=
